@@ -233,6 +233,10 @@ def main():
         oi = prob[2]      # known finding F15: exactly the DEPTHWISE_CONV_2D operator under dynamic range with tensor-wise 8-bit weights
         if out["codes"][0][oi] == "DEPTHWISE_CONV_2D" and it[0]["mode"][0][oi]["m"] == "DRQ" and it[0]["mode"][0][oi]["w"] == "w8t":
           fid = "F15"
+      # known finding F26: BATCH_MATMUL with a constant FIRST operand under dynamic range - the interpreter refuses the model
+      if (fid is None and "F26" in kf and "batch_matmul.cc" in msg and "lhs_data->type" in msg and
+          any(o["kind"] == "BMMC" and md["m"] == "DRQ" for sub, modes in zip(it[0]["subs"], it[0]["mode"]) for o, md in zip(sub["ops"], modes))):
+        fid = "F26"
       if fid:
         chk.known(fid)
       else:
